@@ -212,16 +212,22 @@ fn level1(seed: u64, tier: Tier) -> Tally {
         if a.seal == a.open {
             t.count("same_device_cases", 1);
             // every entry point must refuse: the device would hold both ends
+            let mut refused = true;
             if r.is_some() {
+                refused = false;
                 t.violation(format!("l1:author:same_device:{}", a.describe(&base)), "from_author_secret derived a key with seal id == open id".to_string(), a.to_json());
             }
             if UniSecrets::new(&eng, &chan(&ks, a)).is_ok() {
+                refused = false;
                 t.violation(format!("l1:secrets:same_device:{}", a.describe(&base)), "UniSecrets::new succeeded with seal id == open id".to_string(), a.to_json());
             }
             if derive_peer(&mut t, &encap, a).is_some() {
+                refused = false;
                 t.violation(format!("l1:peer:same_device:{}", a.describe(&base)), "from_peer_encap derived a key with seal id == open id".to_string(), a.to_json());
             }
-            t.count("same_device_refused", 1);
+            if refused {
+                t.count("same_device_refused", 1);
+            }
         }
         authors.push((*a, r));
     }
@@ -718,8 +724,10 @@ pub fn run(args: &Args) {
     rep.set("exhaustive", true);
     rep.assume("binding property only, DefaultCipherSuite with deterministic keys; nothing cryptographic is claimed");
     rep.assume("the parameters given to UniSecrets::new do not enter the encapsulation (it is the public half of the ephemeral secret); 'author side' means the tuple given to from_author_secret / carried by UniChannelCreated");
-    for c in ["accepted_matching", "rejected_mismatching", "same_device_refused", "role_check_refused", "both_ends_refused", "l1_cross_pairs", "l2_cross_pairs", "l1_matching_pairs", "l1_bitflip_cases", "l1_encap_corruptions"] {
-        rep.require_nonzero(c);
-    }
+    guards(
+        &mut rep,
+        &["same_device_cases", "role_check_cases", "both_ends_cases", "l1_cross_pairs", "l2_cross_pairs", "l1_matching_pairs", "l1_bitflip_cases", "l1_encap_corruptions"],
+        &["accepted_matching", "rejected_mismatching", "same_device_refused", "role_check_refused", "both_ends_refused"],
+    );
     rep.finish()
 }
